@@ -98,10 +98,10 @@ Record DynInv (s : core) : Prop := {
            fdnum (fdt s (16 + j)) = rw_rfd s j /\ h_in (fdt s (16 + j)) = Some (H_RAW j) /\
            h_out (fdt s (16 + j)) = None /\ h_err (fdt s (16 + j)) = None;
   dy_kern : forall j, rw_reg s j = true ->
-            if efd_raw s =? 0 then pipe_ok (kern s) (rw_rfd s j) (rw_wfd s j)
+            (* the transport is a property of the object (one descriptor for both ends = eventfd), not of the
+               current value of the eventfd_in_use flag: eventfd creation may start failing mid-run *)
+            if raw_is_pipe s j then pipe_ok (kern s) (rw_rfd s j) (rw_wfd s j)
             else evfd_ok (kern s) (rw_rfd s j) (rw_wfd s j);
-  dy_mode0 : efd_raw s = 0 -> no_eventfd (flt (kern s)) = true;
-  dy_mode1 : efd_raw s <> 0 -> forall j, rw_reg s j = true -> no_eventfd (flt (kern s)) = false;
   dy_modes : efd_raw s = 0 \/ efd_raw s = 1 \/ efd_raw s = 2;
   dy_userh : forall k, 0 <= k < 16 -> hids_ok (fdt s k) (fun h => 0 <= h < 16);
   (* the kick descriptor of the epoll back ends *)
@@ -117,6 +117,11 @@ Record DynInv (s : core) : Prop := {
   dy_tfdent : forall e, In e (ep (kern s)) -> en_data e = -2 ->
               exists v, k_open (kern s) (tfd s) = Some v /\ vkind v = K_TIMERFD;
 }.
+
+(* case split on the transport of raw event j in a goal / hypothesis pair about dy_kern *)
+Ltac dyk := unfold raw_is_pipe in *; sp;
+  match goal with |- context [if negb (rw_wfd ?s ?j =? rw_rfd ?s ?j) then _ else _] =>
+    destruct (negb (rw_wfd s j =? rw_rfd s j)) end.
 
 (* ---------- tasks, events, accounting ---------- *)
 Definition curl (s : core) : list Z := match cur s with Some c => c | None => [] end.
